@@ -112,6 +112,31 @@ impl Deserializer {
         final(self).called@.len() <= old(self).called@.len() + 1,
 //@@ end
 }
+// the untyped value tree (value/de.rs): which Value variant a constructor announces
+//@@ type file=serde_amqp/src/value/de.rs kind=enum name=ValueType
+//@@ end
+/// the Value variant of each constructor, by the same reading of the AMQP type table
+pub open spec fn value_type_for(c: u8) -> Option<ValueType> {
+    match entry_for(c) {
+        Some(Entry::Bool) => Some(ValueType::Bool), Some(Entry::I8) => Some(ValueType::Byte), Some(Entry::I16) => Some(ValueType::Short), Some(Entry::I32) => Some(ValueType::Int),
+        Some(Entry::I64) => Some(ValueType::Long), Some(Entry::U8) => Some(ValueType::Ubyte), Some(Entry::U16) => Some(ValueType::Ushort), Some(Entry::U32) => Some(ValueType::Uint),
+        Some(Entry::U64) => Some(ValueType::Ulong), Some(Entry::F32) => Some(ValueType::Float), Some(Entry::F64) => Some(ValueType::Double), Some(Entry::Char) => Some(ValueType::Char),
+        Some(Entry::String) => Some(ValueType::String), Some(Entry::ByteBuf) => Some(ValueType::Binary), Some(Entry::Unit) => Some(ValueType::Null), Some(Entry::Seq) => Some(ValueType::List),
+        Some(Entry::Map) => Some(ValueType::Map), Some(Entry::Struct) => Some(ValueType::Described),
+        Some(Entry::Newtype(NtName::Symbol)) => Some(ValueType::Symbol), Some(Entry::Newtype(NtName::Array)) => Some(ValueType::Array),
+        Some(Entry::Newtype(NtName::Decimal32)) => Some(ValueType::Decimal32), Some(Entry::Newtype(NtName::Decimal64)) => Some(ValueType::Decimal64),
+        Some(Entry::Newtype(NtName::Decimal128)) => Some(ValueType::Decimal128), Some(Entry::Newtype(NtName::Timestamp)) => Some(ValueType::Timestamp),
+        Some(Entry::Newtype(NtName::Uuid)) => Some(ValueType::Uuid),
+        None => None,
+    }
+}
+//@@ fn file=serde_amqp/src/value/de.rs impl=`impl From<EncodingCodes> for ValueType` name=from as=value_type_from_code
+//@@ ret ValueType
+//@@ orsplit
+//@@ spec
+    ensures value_type_for(code as u8) == Some(r),        // [C03.value.variant-by-constructor] [C05.value.variant-by-constructor] in the untyped value tree every constructor becomes the Value variant of the type it announces -- all width variants of a type the same variant (uint0 / smalluint / uint: Uint; sym8 / sym32: Symbol, not String; list0 / list8 / list32: List), a timestamp a Timestamp and not a Long
+//@@ end
+
 pub trait TryCode { fn try_code(self) -> (r: Result<EncodingCodes, Error>) ensures r is Ok ==> r->Ok_0 as u8 == self.byte(), entry_for(self.byte()) is Some ==> r is Ok; spec fn byte(self) -> u8; }
 impl TryCode for u8 { open spec fn byte(self) -> u8 { self } fn try_code(self) -> (r: Result<EncodingCodes, Error>) { EncodingCodes::try_from_u8(self) } }
 
